@@ -68,6 +68,32 @@ CHECKS = {
     design="3/C18", engine="symx+sched",
     technique="symx explorer as solver-driven schedule and crash enumerator (vlib.sched: hand-over-hand threads, symbolic choice and kill integers, preemption bound as a z3 constraint, checked partial-order reduction) over vlib.vfs; replay with real processes gated by a profile hook, a FIFO-gated compiler wrapper and kill -9",
     note="Trusted: z3, the symx explorer, vlib.sched and vlib.vfs (the operation sequences of real first and cached loads equal the model's on every run), the kill model (no filesystem effects after the kill, compiler dies with the process), linker = unlink+create. Bounded by N<=3 quick / <=4 thorough, one kill per run, two-half compiler; Windows and network filesystem semantics and write buffering are outside. A truncated exploration is exit 2, never success."),
+ "C07": dict(
+    text="Bounded symbolic execution of the real P@S composition code (load_model_info, make_product_info, build_model, ProductKernel.__init__/Iq/results, "
+         "make_kernel_args, Kernel.Fq/Iq) on z3 proxies, with P and S as recording stub kernels. For every builtin (P,S) pair, effective-radius mode, beta mode, "
+         "1-D/2-D and dispersed-parameter choice within the bounds, with the whole value vector symbolic, z3 shows that P and S receive exactly what "
+         "make_kernel_args builds for them alone, that the documented formula holds, and that results() reports the quantities used. The slice arithmetic is "
+         "additionally proved for symbolic parameter counts.",
+    design="3/C07",
+    technique="symbolic execution of real Python on z3 proxy values with recording stub leaf kernels; QF_NRA/UF obligations discharged by z3; counterexamples replayed on the compiled kernels",
+    note="Leaf kernels are abstract (their accumulators are symbols). Mesh lengths <= 3, two q points, at most two dispersed parameters and two symbolic magnetisations at a time. 2-D beta is refused by the code and is outside the claim. Doubles modelled as reals. Trusted: z3, symx, vlib/compose.py. One known finding (results() radius_effective in mode 0; pinned by the repository's own test)."),
+ "C08": dict(
+    text="Bounded symbolic execution of the real mixture code (expression parsing, make_mixture_info, build_model, MixtureKernel.Iq, _MixtureParts, the product code "
+         "for P@S parts, make_kernel_args, Kernel.Iq) on z3 proxies with recording stub leaves. For every enumerated expression, with all values, weights and leaf "
+         "intensities symbolic (exact zeros included), z3 shows that each leaf is handed exactly what it is handed when its component runs alone from the prefixed "
+         "parameters, that total = scale*sum X_k*I_k + bg or scale*prod I_k + bg, and that swapping a 2-part expression changes nothing.",
+    design="3/C08",
+    technique="symbolic execution of real Python on z3 proxy values with recording stub leaf kernels; obligations in ring normal form discharged by z3; counterexamples, including solver-proposed exact zeros, replayed on the compiled kernels",
+    note="Leaves abstract; one dispersed parameter per component (length 2 or 3), two q points, at most two symbolic magnetisations. Leaves that cannot be driven to zero by any known input are assumed non-zero. Parenthesised expressions do not exist in the parser; results() of mixtures is not part of the statement. One known finding (IndexError for a nested parameterless component)."),
+ "C19": dict(
+    text="For every spin-echo grid of 1-4 positive increasing lengths, any wavelengths, any acceptance angle in (0, pi/2] and any kernel output, the value returned for "
+         "SESANS data equals (1/2pi) sum_k [m_kj J0(q_k xi_j) - 1] I_k q_k dq_k, with dq_k the code's interval widths and m_kj the documented acceptance mask "
+         "q_k <= 2 pi sin(theta_max)/lambda. The data path from empty_sesans through _calc_theory is included. The value is linear in I, no background is added, the "
+         "kernel is evaluated on q_calc, and q_calc is positive and strictly increasing. Proved for q grids of at most 8 points (quick) or 12 (thorough), obtained by "
+         "enlarging the code's log spacing.",
+    design="3/C19",
+    technique="bounded symbolic execution of the real Python on z3 proxies (mask kept symbolic as if-then-else, NaN tracked, grid length forked); J0/exp/log/sin/asin uninterpreted with instantiated true facts; nlsat on a UF-abstracted weakening first, then full SMT, with counterexample-guided refinement of sin/asin; sat models replayed on the real float code with scipy j0",
+    note="Doubles are reals. The code's log spacing 1.0003 is replaced by 1.5-4 to bound the grid; the code is uniform in grid length. The quadrature-accuracy clauses (Gaussian pair, 10% single point) are outside the solver claim and only reported as concrete runs. Units other than A/radians need sasdata (absent). The reading 'mask also on the -G(0) term' is not demanded."),
 }
 
 NOT_YET = "check not built yet in this round (planned in DESIGN.md section 3); not claimed"
